@@ -227,6 +227,13 @@ def run(chk: Check):
         chk.count(f"rr:n={len(scn.lineup)}"); chk.count("rr:with_restore" if any(o[0] == "R" for o in scn.ops) else "rr:live_only")
         for e in oracle_rr(scn, info)[:3]:
             chk.fail("round-robin: " + e, {"case": scn_json(scn)})
+        for li, ln in enumerate(lines[1:]):
+            # a call that raises something nobody injected produces no batch at all where the rule prescribes sampler (b mod n)
+            if ln.startswith("raise:") and ln.split(" ")[0] not in ("raise:sampler", "raise:model", "raise:loss"):
+                b_at = ln.split(" b=")[1].split(" ")[0] if " b=" in ln else "?"
+                chk.fail(f"round-robin: operation {li} ({scn.ops[li][:2]}) raised {ln.split(' ')[0][6:][:90]} instead of producing batch {b_at} with sampler "
+                         f"{b_at} mod {len(scn.lineup)} of the line-up (files planted in the saving folder: {info.get('planted')})", {"case": scn_json(scn)})
+                break
         if i % 5 == 4:
             # (the fault plan counts invocations per process in the harness and per calibrator object - restored with it - in the model: after the restore the
             # model would fail again at the same count. This stream is judged by the model-independent oracle above.)
